@@ -222,12 +222,37 @@ def generate(tier, seed, info):
         ccr = rnd.randrange(256) | 0x80
         cid += 1
         m = ";".join("%x:%s" % (a, isa.hexb(b)) for a, b in mem.items())
-        lines.append("id=%x kind=run tag=%x sock= pc=0 ccr=%x exit=%x er=%s mem=%s ops=run:%x" % (
-            cid, tag, ccr, base + exit_off, ",".join("%x" % x for x in er), m, 600000 if long_run else 20000))
+        # the count the run starts from: mostly 0; sometimes close below 2^31 / 2^32 / 2^33 (totals, sync totals and the stamps
+        # of port announcements must carry on beyond them)
+        start = ""
+        if rnd.random() < 0.12:
+            start = " sum=%x" % (rnd.choice([1 << 31, 1 << 32, 1 << 33, 3 << 32]) - rnd.choice([0, 6, 12, 30, 300, 3000]))
+        lines.append("id=%x kind=run tag=%x sock=%s pc=0 ccr=%x exit=%x er=%s mem=%s ops=run:%x" % (
+            cid, tag, start, ccr, base + exit_off, ",".join("%x" % x for x in er), m, 600000 if long_run else 20000))
     tl = timer_irq_programs(rnd, 300 if tier == "quick" else 5000, tag, cid)
     lines += tl
     cid += len(tl)
     info["timer_interrupt_programs"] = len(tl)
+    # an instruction that cannot be fetched completely fails and run returns the error: programs whose last instruction is a
+    # multi-word form lying across the end of DRAM (its extension words are unmapped)
+    # (for JMP / JSR @aa:24 the exit address is where a zero low word would lead, so that going on instead of failing is seen)
+    tails = [([0x5a, 0x41], 2, "jmp @aa:24"), ([0x79, 0x03], 2, "mov.w #imm"), ([0x58, 0x00], 2, "bra d:16"), ([0x7a, 0x03], 2, "mov.l #imm, no extension word"),
+             ([0x7a, 0x03, 0x12, 0x34], 4, "mov.l #imm, low word missing"), ([0x6b, 0x02], 2, "mov.w @aa:16"), ([0x01, 0x00], 2, "prefix only"),
+             ([0x01, 0x00, 0x6b, 0x22, 0x00, 0x41], 6, "mov.l @aa:24, low word missing"), ([0x5e, 0x41], 2, "jsr @aa:24")]
+    for tail, tl_len, _what in tails:
+        for pre in range(3):
+            body = []
+            for _b in range(pre):
+                i = simple_insn(rnd)
+                body += i
+            code = body + tail
+            base = 0x600000 - len(code)
+            er = [isa.rand_val(rnd, 32) for _ in range(8)]
+            er[2] = base
+            er[7] = 0xffff00
+            cid += 1
+            lines.append("id=%x kind=run tag=%x sock= pc=0 ccr=%x exit=%x er=%s mem=%x:%s ops=run:%x" % (
+                cid, tag, rnd.randrange(256) | 0x80, 0x410000 if tail[0] in (0x5a, 0x5e) else 0x416900, ",".join("%x" % x for x in er), base, isa.hexb(code), 1000))
     # crafted: the cumulative count reaches EXACTLY a multiple of 2,000,000 (only every third multiple is reachable, charges being
     # multiples of 3): code in on-chip RAM (2 states per fetch): MOV.L #n,ER6 (6) ; L: DEC.L #1,ER6 (2) ; BNE L (4) ; fillers (2 each)
     for variant in range(2):
